@@ -439,6 +439,20 @@ fn eval_case<P: Prop>(
 }
 
 static PROGRESS: AtomicU64 = AtomicU64::new(0);
+static DEBUG_CASES: AtomicBool = AtomicBool::new(false);
+static CURRENT: Mutex<Vec<(u64, String)>> = Mutex::new(Vec::new());
+
+fn debug_set_current(worker: u64, f: impl FnOnce() -> String) {
+    if DEBUG_CASES.load(Ordering::Relaxed) {
+        let mut g = CURRENT.lock().unwrap();
+        let s = f();
+        if let Some(e) = g.iter_mut().find(|e| e.0 == worker) {
+            e.1 = s;
+        } else {
+            g.push((worker, s));
+        }
+    }
+}
 
 fn start_watchdog(limit_s: u64) {
     std::thread::spawn(move || {
@@ -452,10 +466,28 @@ fn start_watchdog(limit_s: u64) {
                 since = Instant::now();
             } else if since.elapsed().as_secs() > limit_s {
                 println!("INCONCLUSIVE: watchdog - no progress for {limit_s}s (hang in a case?)");
+                if let Ok(g) = CURRENT.try_lock() {
+                    for (w, c) in g.iter() {
+                        println!("  worker {w} current case: {c}");
+                    }
+                }
                 std::process::exit(2);
             }
         }
     });
+}
+
+static FAIL_BUDGET: AtomicU64 = AtomicU64::new(12);
+
+fn print_fail(f: &Failure) {
+    let left = FAIL_BUDGET.load(Ordering::Relaxed);
+    if left > 0 {
+        FAIL_BUDGET.store(left - 1, Ordering::Relaxed);
+        println!("FAIL [{}] {}", f.sig, f.detail);
+        if left == 1 {
+            println!("  (further FAIL lines suppressed)");
+        }
+    }
 }
 
 pub fn tick() {
@@ -514,7 +546,11 @@ pub fn run_prop<P: Prop>(prop: P, opts: &Opts) -> ! {
         std::process::exit(0);
     }
 
-    start_watchdog(300);
+    let wd = std::env::var("VERIF_WATCHDOG_S").ok().and_then(|s| s.parse().ok()).unwrap_or(300);
+    if std::env::var("VERIF_DEBUG_CASES").is_ok() {
+        DEBUG_CASES.store(true, Ordering::Relaxed);
+    }
+    start_watchdog(wd);
     let mut total = Stats::default();
     let mut violations: Vec<Violation> = Vec::new();
     let mut corpus_replayed = 0u64;
@@ -555,7 +591,7 @@ pub fn run_prop<P: Prop>(prop: P, opts: &Opts) -> ! {
                 if !real.is_empty() {
                     let p = write_replay(&opts.root, id, c, &real, &format!("corpus {name}"));
                     for f in &real {
-                        println!("FAIL [{}] {}", f.sig, f.detail);
+                        print_fail(f);
                     }
                     violations.push(Violation { replay: p, sigs: real.iter().map(|f| f.sig.clone()).collect() });
                 }
@@ -609,7 +645,7 @@ pub fn run_prop<P: Prop>(prop: P, opts: &Opts) -> ! {
                     if let Some((c, real)) = viol {
                         let p = write_replay(&opts.root, id, &c, &real, &format!("enumeration {}", en.name));
                         for f in &real {
-                            println!("FAIL [{}] {}", f.sig, f.detail);
+                            print_fail(f);
                         }
                         violations.push(Violation { replay: p, sigs: real.iter().map(|f| f.sig.clone()).collect() });
                     }
@@ -658,6 +694,7 @@ pub fn run_prop<P: Prop>(prop: P, opts: &Opts) -> ! {
                 if invocations.get() % 256 == 0 {
                     tick();
                 }
+                debug_set_current(w, || serde_json::to_string(&case).unwrap_or_default());
                 let r = catch(|| {
                     if failed.get() {
                         // shrinking: do not count
@@ -727,10 +764,12 @@ pub fn run_prop<P: Prop>(prop: P, opts: &Opts) -> ! {
             std::process::exit(2);
         }
         let p = write_replay(&opts.root, id, &c, &real, &origin);
-        for f in &real {
-            println!("FAIL [{}] {}", f.sig, f.detail);
+        for f in real.iter().take(2) {
+            print_fail(f);
         }
-        println!("  minimal case: {}", serde_json::to_string(&c).unwrap());
+        if FAIL_BUDGET.load(Ordering::Relaxed) > 0 {
+            println!("  minimal case: {}", serde_json::to_string(&c).unwrap());
+        }
         violations.push(Violation { replay: p, sigs: real.iter().map(|f| f.sig.clone()).collect() });
     }
 
@@ -833,9 +872,18 @@ pub fn run_prop<P: Prop>(prop: P, opts: &Opts) -> ! {
     println!("labels: {}", txt.join(" "));
 
     if !violations.is_empty() {
+        let mut seen: HashSet<PathBuf> = HashSet::new();
+        let mut by_sig: BTreeMap<String, usize> = BTreeMap::new();
         for v in &violations {
-            println!("VIOLATION property={id} replay={}", v.replay.display());
-            let _ = &v.sigs;
+            for s in &v.sigs {
+                *by_sig.entry(s.clone()).or_insert(0) += 1;
+            }
+        }
+        println!("violation signatures: {by_sig:?}");
+        for v in &violations {
+            if seen.insert(v.replay.clone()) && seen.len() <= 8 {
+                println!("VIOLATION property={id} replay={}", v.replay.display());
+            }
         }
         std::process::exit(1);
     }
